@@ -97,7 +97,13 @@ func regExpSource(pattern string) string {
 		chr := pattern[i]
 		switch chr {
 		case '\\':
-			if i+1 < len(pattern) && pattern[i+1] != '\n' && pattern[i+1] != '\r' {
+			rest := pattern[i+1:]
+			if strings.HasPrefix(rest, "\n") || strings.HasPrefix(rest, "\r") || strings.HasPrefix(rest, "\u2028") || strings.HasPrefix(rest, "\u2029") {
+				// An escaped line terminator is that line terminator: only its
+				// own escape (written below) goes into the source.
+				continue
+			}
+			if rest != "" {
 				source.WriteByte(chr)
 				i++
 				chr = pattern[i]
